@@ -604,8 +604,21 @@ var runSeq struct {
 	n int
 }
 
-// Run executes the program in a child process and dumps the store from a further fresh process.
+// Run executes the program in a child process and dumps the store from a further fresh process. A run whose
+// child process could not be started, was killed by the wall-clock guard or produced no parsable output is an
+// environment failure (machine load), not an observation of sop: it is repeated up to twice before it is reported.
 func Run(p *Program, keepTrace bool) *Outcome {
+	var o *Outcome
+	for try := 0; try < 3; try++ {
+		o = runOnce(p, keepTrace)
+		if o.ChildErr == "" {
+			return o
+		}
+	}
+	return o
+}
+
+func runOnce(p *Program, keepTrace bool) *Outcome {
 	runSeq.Lock()
 	runSeq.n++
 	n := runSeq.n
